@@ -36,6 +36,13 @@ CHECKS["C09"] = ("abstract interpretation of the full-grid array builder, len an
 CHECKS["C02"] = ("abstract interpretation of FullGrid._get_N_N / get_total_volumes over the abstract grid object (symbolic sizes and factor): aligned emission lists with row/column index polynomials (LAYOUT/MIRROR), factor power per family (DEG), periodic block list identity, plus FOLD/TRUTH rules on the antipodal fold of the rotation block",
     "Composition of the full-grid adjacency/border/distance matrices and of the 6D volumes from position and rotation geometry is derived symbolically for all sizes (n_b>=4 and n_b=1) and compared with the property: index maps, stored values, factor powers, block placement, shapes, cell order; the rotation block must be the folded half-sphere matrix whose antipode map is total. Positivity/finiteness and the value-dependent `if el:` filter are not decided.", "6 C02")
 
+CHECKS["C03"] = ("abstract interpretation of AbstractVoronoi._calculate_N_N_array for symbolic N (mirrored emission, guard independent of the property, threshold dim-1), of the pair functions and of the cell-model dispatch / exact-area default",
+    "Structural clauses only: symmetry, empty diagonal and one common pattern of the three pairwise matrices by construction, adjacency threshold, which function computes distance and border from which arguments, N>=4 -> exact model, default areas from SphericalVoronoi.calculate_areas. That scipy's regions are the true tessellation and all arc/area values are not decided.", "6 C03")
+CHECKS["C04"] = ("FOLD/TRUTH rules on the antipodal fold (index array in Boolean context, value-copying fold, one index list), abstract interpretation of the full-sphere pairwise matrices (4D), interval/RANGE rule on distance_between_quaternions, LAYOUT of the double cover, forwarding resolution of the public getters",
+    "Structural clauses: antipode map total incl. index 0, value-copying fold, single ascending index list, symmetric full-sphere matrices on one pattern, threshold 3 shared vertices, quaternion distance in [0,pi/2] (switch exactly pi/2), double cover [G;-G], getters reach the folded implementation. Which cells share a 2-face and the face areas are not decided.", "6 C04")
+CHECKS["C15"] = ("abstract interpretation of the volume estimators (equal-share formulas, hull.area/2), selector/axis role check of the helper-point assignment, polarity agreement of the hemisphere filters, selection of half volumes at the upper indices, model dispatch threshold",
+    "Structural clauses: pi^2/N and 4*pi/N for N<4 with threshold 4, factor 1/2 on the hull surface measure, nearest-centre assignment along the right axis, same hemisphere predicate for helper points and centres, half volumes = first N of the 2N double-cover volumes. The 12%/30% tolerance bands are numerical and not decided.", "6 C15")
+
 NOT_APPLICABLE = {
     "C06": "Cartesian Voronoi cell geometry is produced by qhull and floating-point predicates (polygon vertex ordering, F2); no static abstract domain in reach separates the failing coordinate configurations; the one structural clause is too thin to claim the property (DESIGN.md section 6, C06).",
     "C07": "distinctness/separation/hemisphere membership of computed coordinates are numerical facts; the row-count and unit-norm clauses are already run-time assertions, so a static restatement would only test the presence of those asserts (DESIGN.md section 6, C07).",
